@@ -60,6 +60,7 @@ fn twin_key<C: KeyColl>(rep: &mut Report, hint_a: usize, hint_b: usize, prefix: 
     let none = KMon::none();
     let mut lines: Vec<String> = prefix.iter().map(|o| o.line()).collect();
     let ctor = format!("hint={} twin_hint={}", hint_a, hint_b);
+    ctx::set(hist, 0);
     let mut a = KeyExec::<C>::new(hint_a);
     let mut scratch = Report::new();
     for (i, op) in prefix.iter().enumerate() {
@@ -123,6 +124,7 @@ fn twin_ord<C: ord::OrdColl>(rep: &mut Report, hint_a: usize, hint_b: usize, uni
     let none = OMon::default();
     let mut lines: Vec<String> = prefix.iter().map(|o| o.line()).collect();
     let ctor = format!("hint={} uni={}..{} twin_hint={}", hint_a, uni.0, uni.1, hint_b);
+    ctx::set(hist, 0);
     let mut a = OrdExec::<C>::new(hint_a, uni);
     let mut scratch = Report::new();
     for (i, op) in prefix.iter().enumerate() {
@@ -180,6 +182,7 @@ fn twin_seg(rep: &mut Report, dom: (i64, i64), prefix: &[SOp], suffix: &[SOp], h
     let none = SMon::default();
     let mut lines: Vec<String> = prefix.iter().map(|o| o.line()).collect();
     let ctor = format!("coord=i32 lo={} hi={}", dom.0, dom.1);
+    ctx::set(hist, 0);
     let mut a = match SegExec::<i32>::new(dom.0, dom.1) {
         Some(a) => a,
         None => return,
